@@ -332,7 +332,9 @@ def _blocking_case(case):
     out = []
     # three parameters of orders 2, 1, 0..; chunk counts chosen per (storage name, dim)
     layouts = [((2, 1), (2,)), ((1, 2), ()), ((2, 2), (1,))] if not merge else [((2,), (1,)), ((1,), (2,))]
-    for li, layout in enumerate(layouts):
+    # ownership pattern of the blocks on this rank ("all": single process; "skip0": a distributed rank that owns NO block of parameter 0 —
+    # the global gradient selector must still record parameter 0's gradient presence, only the LOCAL gradient blocks shrink)
+    for li, layout, own in [(li, layout, own) for li, layout in enumerate(layouts) for own in ("all", "skip0")]:
         for present in itertools.product((True, False), repeat=len(layout)):
             def fn():
                 del VIEWS[:]
@@ -368,14 +370,15 @@ def _blocking_case(case):
                 D._param_group = {st.PARAMS: params, st.MAX_PRECONDITIONER_DIM: s, st.USE_MERGE_DIMS: merge}
                 with rebind([(su, "torch", FT)]):
                     D._merge_and_block_parameters()
-                    D._distributor_selector = (True,) * len(D._global_blocked_params)
+                    nb0 = list(D._global_num_blocks_per_param)[0] if own == "skip0" else 0
+                    D._distributor_selector = (False,) * nb0 + (True,) * (len(D._global_blocked_params) - nb0)
                     views_params = list(VIEWS)
                     grads = D._merge_and_block_gradients()
                 return D, params, grads, views_params, list(VIEWS), s
 
             paths = Explorer().run(fn)
             for pi, p in enumerate(paths):
-                tag = f"[{case}/L{li}/{''.join(str(int(x)) for x in present)}]#p{pi}"
+                tag = f"[{case}/L{li}{'' if own == 'all' else '-' + own}/{''.join(str(int(x)) for x in present)}]#p{pi}"
                 if p.outcome != "return":
                     # in merge mode a path on which merged dims differ between chunk-count assumptions may be infeasible; report others
                     out.append(result(f"{func}/no-exception{tag}", func, "unknown" if p.outcome == "abort" else "violated", text=repr(p.value)[:200], case=case,
@@ -402,7 +405,8 @@ def _blocking_case(case):
                     pos += nb[j] if ok else 0
                 ok = ok and tuple(D._global_grad_selector) == tuple(sel)
                 # gradient block k has the box of parameter block k (of the parameters that have a gradient), in order
-                pblocks = [b for b, keep in zip(blocks, sel) if keep] if ok else []
+                dsel = tuple(D._distributor_selector)
+                pblocks = [b for b, keep, mine_ in zip(blocks, sel, dsel) if keep and mine_] if ok else []
                 ok = ok and len(grads) == len(pblocks)
                 if ok:
                     for gb, pb in zip(grads, pblocks):
@@ -491,6 +495,28 @@ def native_noncontiguous():
     return None
 
 
+def native_ownership():
+    """a rank that owns no block of a parameter (distributed configurations) must still record that parameter's gradient presence in the
+    GLOBAL gradient selector; only the local gradient blocks shrink"""
+    import torch
+    from distributed_shampoo.utils.shampoo_distributor import Distributor
+    from distributed_shampoo import shampoo_types as st
+    a, b = torch.nn.Parameter(torch.randn(3, 4)), torch.nn.Parameter(torch.randn(5))
+    D = Distributor({st.PARAMS: [a, b], st.MAX_PRECONDITIONER_DIM: 2, st.USE_MERGE_DIMS: False})
+    nb = list(D._global_num_blocks_per_param)
+    for pres in ((True, True), (True, False), (False, True)):
+        a.grad = torch.randn_like(a) if pres[0] else None
+        b.grad = torch.randn_like(b) if pres[1] else None
+        D._distributor_selector = (False,) * nb[0] + (True,) * nb[1]
+        g = D._merge_and_block_gradients()
+        want = tuple([pres[0]] * nb[0] + [pres[1]] * nb[1])
+        if tuple(D._global_grad_selector) != want:
+            return f"presence {pres}, rank owning no block of parameter 0: global gradient selector {tuple(D._global_grad_selector)} != presence per block {want}"
+        if len(g) != (nb[1] if pres[1] else 0):
+            return f"presence {pres}: {len(g)} local gradient blocks, expected {nb[1] if pres[1] else 0}"
+    return None
+
+
 def native_presplit(shape, maxdim, merge, cfgname, seed, steps=4):
     """optimising a tensor under a blocking == optimising its blocks as separate parameters (same gradients)"""
     import torch
@@ -551,6 +577,11 @@ def bounded(tier, seed):
         if bad:
             viol.append(dict(ob=f"bounded/blocked=pre-split[{shape},{maxdim},{merge},{cfgname}]", func="DistributedShampoo.step", input=dict(shape=shape, maxdim=maxdim, merge=merge, config=cfgname),
                              text=bad, detail=bad, replay=dict(kind="presplit", shape=list(shape), maxdim=maxdim, merge=merge, cfg=cfgname, seed=seed)))
+    bad = native_ownership()
+    evals += 1
+    distinct.add(("ownership",))
+    if bad:
+        viol.append(dict(ob="bounded/global-selector-independent-of-ownership", func="DistributorInterface._merge_and_block_gradients", input=dict(selector="no block of parameter 0 owned"), text=bad, detail=bad, replay=dict(kind="ownership")))
     bad = native_noncontiguous()
     evals += 1
     distinct.add(("non-contiguous",))
@@ -585,12 +616,15 @@ def replay_file(doc):
             return True, f"merge_small_dims({shape}, {thr}) raised {type(e).__name__}: {e}"
         bad = _check_merge_native(shape, thr, res)
         return bool(bad), f"merge_small_dims({shape}, {thr}) = {res}: {bad}"
+    if rp.get("kind") == "ownership":
+        bad = native_ownership()
+        return bool(bad), bad or "global gradient selector is independent of block ownership"
     if rp.get("kind") == "noncontig":
         bad = native_noncontiguous()
         return bool(bad), bad or "non-contiguous parameters are blocked into views of their own storage"
     if rp.get("kind") in ("split", "blocking", "merge"):
         import itertools as it
-        bad = native_noncontiguous()
+        bad = native_noncontiguous() or native_ownership()
         if bad:
             return True, bad
         for order in range(0, 5):
